@@ -683,6 +683,8 @@ pub fn check(property: &str, tier: &str, top: u64) -> i32 {
     let mut faults: BTreeMap<String, u64> = BTreeMap::new();
     let (mut steps, mut switches, mut vns, mut ops, mut inconclusive, mut jumps) = (0u64, 0u64, 0u128, 0u64, 0u64, 0u64);
     let (mut dev_r, mut dev_w, mut dev_f) = (0u64, 0u64, 0u64);
+    let mut ring = [0u64; 4];
+    let mut ring_runs = 0u64;
     for (_, o) in &all {
         if o.nontrivial {
             distinct.insert(o.case_hash);
@@ -712,6 +714,10 @@ pub fn check(property: &str, tier: &str, top: u64) -> i32 {
         dev_r += o.disk.reads;
         dev_w += o.disk.writes;
         dev_f += o.disk.fsyncs;
+        for i in 0..4 {
+            ring[i] += o.disk.ring[i];
+        }
+        ring_runs += (o.disk.ring[0] > 0) as u64;
         if matches!(o.verdict, Verdict::Inconclusive { .. }) {
             inconclusive += 1;
         }
@@ -792,6 +798,7 @@ pub fn check(property: &str, tier: &str, top: u64) -> i32 {
             "fault_kinds_fired": faults,
             "buggify_fired": fail_hits,
             "device_calls": {"read": dev_r, "write": dev_w, "fsync": dev_f},
+            "simulated_io_uring": {"runs_with_ring_traffic": ring_runs, "enter_calls": ring[0], "writes_through_ring": ring[1], "entries_orphaned_by_closed_ring": ring[2], "late_kernel_reads_of_orphans": ring[3]},
             "yield_site_hits": site_hits,
             "probes": probes,
             "counters": counters,
